@@ -112,7 +112,7 @@ func (in *instance) do(op *Op) (out string) {
 	return "n/a"
 }
 
-var isoPats = []string{"/a", "/b/{id}", "/c/{id:\\d+}", "/a/b", "/d", "/e", "/f", "/g", "/b/{id}/x", "/w/{id:digit}", "/w/{name:word}/y"}
+var isoPats = []string{"/a", "/b/{id}", "/c/{id:\\d+}", "/a/b", "/d", "/e", "/f", "/g", "/b/{id}/x", "/w/{id:digit}", "/w/{name:word}/y", "/c/{-id:\\d+}", "/r/{uid:\\d+}/raw", "/r/{-uid:\\d+}/raw", "/b/{-id}/x"}
 
 func genInstanceScript(r *Rng, kind string, t int, n int) []Op {
 	var ops []Op
